@@ -65,6 +65,11 @@ func reportMain(args []string) int {
 	fmt.Sscan(args[3], &idx)
 	installSimRand()
 	wv := WorkerViol{Index: idx, V: Violation{Prop: p.ID, Oracle: args[4], Key: args[5]}}
+	if len(args) >= 10 {
+		fmt.Sscan(args[7], &wv.Lo)
+		fmt.Sscan(args[8], &wv.Wi)
+		fmt.Sscan(args[9], &wv.Wn)
+	}
 	os.Setenv("IKESIM_REPORT_PATH", args[6])
 	reportViolation(p, seed, args[1], wv)
 	return 0
